@@ -94,7 +94,10 @@ func statAll(store *transactionOnly, paths []string) ([]hackpadfs.FileInfo, []er
 	errs := make([]error, len(paths))
 	results, err := getFileRecords(store, paths)
 	if err != nil {
-		return nil, []error{err}
+		for i := range errs {
+			errs[i] = err // one entry per path, as callers index the results by path
+		}
+		return infos, errs
 	}
 	for i := range paths {
 		path := paths[i]
